@@ -170,6 +170,12 @@ func init() {
 	for _, id := range []string{"C03", "C17", "C10"} {
 		extendProp(id, ko, []report.Floor{{Rule: "kind-oracle", What: "productions", Min: 1000}}, func(c *Ctx) { defer c.cleanup(); c.kindOracle() })
 	}
+	const us = "unget-spec: the helper that gives the end of a token back to the input (`ungetStr(s)`: the action interpreter gives it its meaning by name) is evaluated from source for every token text of up to three bytes over the bytes of s and one other byte, for every constant s the scanner passes: it gives back exactly len(s) bytes when the token ends with s and nothing otherwise (round 6 seed C03-16: `strings.TrimRight(tokenStr, s)` treats s as a set of bytes; a comment ending in `??>` lost its `?`, inline HTML ending in `<<` never ended)."
+	const ns = "num-spec: every action block that can return T_LNUMBER is evaluated from source on decimal, octal, hexadecimal and binary literals around the boundaries (zero, all-zero digits, separators, the largest integer and one more); which radix reaches a block is read off the automaton, not the action; the id assigned must be T_LNUMBER exactly when the digits, in their radix, fit a signed 64-bit integer (round 6 seed C03-18: `strings.TrimLeft(text, \"0x\")` made `0x0` a float)."
+	for _, id := range []string{"C03", "C02", "C01"} {
+		extendProp(id, us, []report.Floor{{Rule: "unget-spec", What: "constants", Min: 2}}, func(c *Ctx) { defer c.cleanup(); c.scanRun("unget-spec") })
+	}
+	extendProp("C03", ns, []report.Floor{{Rule: "num-spec", What: "number-blocks", Min: 4}}, func(c *Ctx) { defer c.cleanup(); c.scanRun("num-spec") })
 	extendProp("C14", "presence-oracle: which slots of which node kinds a silently parsed tree may leave empty equals the reviewed table - a name node's kind is told by its tokens (a NameRelative has its `namespace` keyword, a NameFullyQualified its leading separator), and the resolver chooses the rule by kind (seed C14-13: `\\Vendor\\X` in a PHP 5 constant expression built as a NameRelative without the keyword, resolved against the current namespace).",
 		[]report.Floor{{Rule: "presence-oracle", What: "slots", Min: 1100}},
 		func(c *Ctx) { defer c.cleanup(); c.presenceOracle() })
